@@ -229,7 +229,7 @@ class _StubThetas:
         return _StubTheta(self.MU[i], self.VAR[i])
 
 
-def _scorer(plates, order, D, T, max_chunk, max_triples, seed):
+def _scorer(plates, order, D, T, max_chunk, max_triples, seed, scorer=None):
     """plates: list of dict(mu, var) (T x E_p, E_p >= 1); order: the key order of the dict handed to the scorer.
     Returns ([(key, score)], RecRng, key->plate index)."""
     from batchie.data import Screen
@@ -256,7 +256,7 @@ def _scorer(plates, order, D, T, max_chunk, max_triples, seed):
         for j in range(i):
             dm.add_value(i, j, D[i][j])
     rr = RecRng(seed)
-    res = GaussianDBALScorer(max_chunk=max_chunk, max_triples=max_triples).score(
+    res = (scorer if scorer is not None else GaussianDBALScorer(max_chunk=max_chunk, max_triples=max_triples)).score(
         plates=pdict, distance_matrix=dm, samples=_StubThetas(MU, VAR), rng=rr, progress_bar=False)
     items = [(int(k), s) for k, s in zip(res.keys(), _canon_scores(list(res.values())))]
     return items, rr, keyof
